@@ -631,6 +631,27 @@ def checkC10 (c : Case) (t : Transcript) : Option String := Id.run do
       return some s!"after user panics only, the locks are not as they were (killed or still held): {t.locks} vs initially {initialLocks c}"
   return none
 
+/-- C14 (run-time face): a thread must not be able to obtain a key while it still owns a live hold
+taken through an acquiring call. The harness's raw unlock asks `ThreadKey::get()` (mark 24 if it
+succeeds): inside a session, outside non-acquiring sub-calls (Debug's own transient hold), that
+must never happen — the key has to be surrendered for the whole duration of the hold. -/
+def checkC14 (c : Case) (t : Transcript) : Option String := Id.run do
+  let segs := segments t.evs
+  let mut i := 0
+  for s in c.prog do
+    let seg := segs.getD i []
+    i := i + 1
+    match s with
+    | .ses ses =>
+      let mut inNonAcq := false
+      for e in seg do
+        if e == .mark mkBeginNonAcq then inNonAcq := true
+        if e == .mark mkEndCall && inNonAcq then inNonAcq := false
+        else if e == .mark mkKeyInUnlock && !inNonAcq then
+          return some s!"statement {i}: ThreadKey::get() succeeds inside a raw unlock of this {repr ses.api} call (key style {repr ses.key}): the key is usable again while the call still owns a live hold"
+    | _ => pure ()
+  return none
+
 /-- C01 (thread-local half, checked on every implementation transcript): the rank discipline.
 Whenever the caller blocks on a lock, every lock it holds either belongs to the same unit
 (owned group) and comes earlier in it, or — in a sorting collection — to a unit with a smaller
@@ -733,6 +754,7 @@ def checkProp (prop : String) (c : Case) (t : Transcript) : Option String :=
   | "C11" => (checkC11 c t).orElse fun _ => checkHold c t
   | "C12" => checkC12 c t
   | "C13" => checkC13 c t
+  | "C14" => checkC14 c t
   | "C17" => (checkC17 c t).orElse fun _ => checkHold c t
   | _ => none
 
